@@ -6,10 +6,38 @@ import absval as A
 import blockrun as B
 
 RULE = ("(2 % of the blocks, 8 % in the thorough tier, sit on the scale axis: 255 ... 65537 frames or 15 ... 257 items) " 
-        "same generator as C01 (valid blocks of nine types, every nested item kind); per case three numbers for the block "
+        "[plus object life cycles as in C01: sized/encoded/decoded, edited in place, sized/encoded/decoded again] same generator as C01 (valid blocks of nine types, every nested item kind); per case three numbers for the block "
         "(nBytes, len(_write), tell() after _build on bytes+sentinel tail) and (nBytes, len) per nested item; thorough: the 8 "
         "blocks of the BTS capture against the jump-table sizes. non-trivial as C01")
 ASSUMPTIONS = ["Data2D cells may be float32 or float64 arrays (the property's quantifier); on disk both are float32"]
+
+
+def judge(ctx, kind, v, opts, r, m):
+    rep = dict(kind=kind, v=v, **opts)
+    lc = " [object used, then edited in place: " + "; ".join(opts["life_cycle"]["edits"]) + "]" if opts.get("life_cycle") else ""
+    sfx = " after in-place edit" if lc else ""
+    if "nbytes" not in r or "enc" not in r:
+        ctx.fail(f"{kind}: valid block cannot be sized/encoded ({r.get('exc', '')[:120]}){lc}", rep, ident=f"{kind} stage={r['stage']}")
+        return
+    if r["nbytes"] != len(r["enc"]):
+        ctx.fail(f"{kind}: nBytes={r['nbytes']} but _write produced {len(r['enc'])} bytes{lc}", rep, ident=f"{kind} nBytes!=written{sfx}")
+    for i, (nb, ln) in enumerate(r.get("items", [])):
+        if nb != ln:
+            ctx.fail(f"{kind}: nested item {i}: nBytes={nb} but its _write produced {ln} bytes{lc}", rep, ident=f"{kind} item nBytes!=written{sfx}")
+    if "tell" in r:
+        if r["tell"] != len(r["enc"]):
+            ctx.fail(f"{kind}: _build consumed {r['tell']} of {len(r['enc'])} bytes{lc}", rep, ident=f"{kind} consumed!=written{sfx}")
+        if r.get("dec_nbytes") is not None and r["dec_nbytes"] != len(r["enc"]):
+            ctx.fail(f"{kind}: decoded block reports nBytes={r['dec_nbytes']} for {len(r['enc'])} bytes{lc}", rep, ident=f"{kind} decoded nBytes{sfx}")
+    elif "exc" in r:
+        ctx.fail(f"{kind}: own encoding cannot be decoded ({r['exc'][:120]}){lc}", rep, ident=f"{kind} stage={r['stage']}")
+    # correspondence: the three numbers of the model
+    if m["size"] != r["nbytes"]:
+        ctx.diff("blk.size", f"{kind}: real nBytes {r['nbytes']} model size {m['size']}{lc}", rep)
+    if len(m["enc"]) != len(r["enc"]):
+        ctx.diff("blk.enc.length", f"{kind}: real wrote {len(r['enc'])} model {len(m['enc'])}{lc}", rep)
+    if "tell" in r and m["consumed"] != r["tell"]:
+        ctx.diff("blk.dec.consumed", f"{kind}: real consumed {r['tell']} model {m['consumed']}{lc}", rep)
 
 
 def run(ctx):
@@ -20,31 +48,11 @@ def run(ctx):
         opts = dict(wide=ctx.rng.random() < 0.3, vpstyle=ctx.rng.choice([0, 0, 1]),
                     prov=ctx.rng.choice(A.PROVENANCES) if ctx.rng.random() < 0.2 else None)
         r = B.real_side(kind, v, **opts)
-        rep = dict(kind=kind, v=v, **opts)
         ctx.case((kind, v), nontrivial=A.nontrivial(kind, v), sample=dict(kind=kind, v=v) if len(repr(v)) < 700 else None,
                  tags=B.shape_tags(kind, v) + (["f64-input"] if opts["wide"] else []) + ([f"prov={opts['prov']}"] if opts["prov"] else []))
-        if "nbytes" not in r or "enc" not in r:
-            ctx.fail(f"{kind}: valid block cannot be sized/encoded ({r.get('exc', '')[:120]})", rep, ident=f"{kind} stage={r['stage']}")
-            continue
-        if r["nbytes"] != len(r["enc"]):
-            ctx.fail(f"{kind}: nBytes={r['nbytes']} but _write produced {len(r['enc'])} bytes", rep, ident=f"{kind} nBytes!=written")
-        for i, (nb, ln) in enumerate(r.get("items", [])):
-            if nb != ln:
-                ctx.fail(f"{kind}: nested item {i}: nBytes={nb} but its _write produced {ln} bytes", rep, ident=f"{kind} item nBytes!=written")
-        if "tell" in r:
-            if r["tell"] != len(r["enc"]):
-                ctx.fail(f"{kind}: _build consumed {r['tell']} of {len(r['enc'])} bytes", rep, ident=f"{kind} consumed!=written")
-            if r.get("dec_nbytes") is not None and r["dec_nbytes"] != len(r["enc"]):
-                ctx.fail(f"{kind}: decoded block reports nBytes={r['dec_nbytes']} for {len(r['enc'])} bytes", rep, ident=f"{kind} decoded nBytes")
-        elif "exc" in r:
-            ctx.fail(f"{kind}: own encoding cannot be decoded ({r['exc'][:120]})", rep, ident=f"{kind} stage={r['stage']}")
-        # correspondence: the three numbers of the model
-        if m["size"] != r["nbytes"]:
-            ctx.diff("blk.size", f"{kind}: real nBytes {r['nbytes']} model size {m['size']}", rep)
-        if len(m["enc"]) != len(r["enc"]):
-            ctx.diff("blk.enc.length", f"{kind}: real wrote {len(r['enc'])} model {len(m['enc'])}", rep)
-        if "tell" in r and m["consumed"] != r["tell"]:
-            ctx.diff("blk.dec.consumed", f"{kind}: real consumed {r['tell']} model {m['consumed']}", rep)
+        judge(ctx, kind, v, opts, r, m)
+    from sessions.c01 import life_cycles
+    life_cycles(ctx, judge, ctx.n(350, 8000))
     if ctx.thorough or True:
         capture_sizes(ctx)
 
